@@ -10,56 +10,56 @@ ALL = ["C%02d" % i for i in range(1, 20)]
 CLAIMED = {
     "C16": ("exploration",
             "randomly generated concurrent programs (rapid) over the public API under the Go race detector, with a hang oracle (real clock, in-memory network)",
-            "rapid-generated programs on a real server and 1..3 real clients: 2..16 goroutines x 5..40 operations over ServerSocket (22 kinds), ClientSocket (20, incl. bursts of connect/disconnect cycles and SetAuth), Namespace/Server/Adapter (16), Manager (10, incl. calls from OnceOpen/OnceClose handlers), session recovery with a cleaner every 2 ms, a third of them performed inside event handlers or ack callbacks of the addressed side, more from connection/disconnecting/disconnect/connect handlers, GOMAXPROCS in {1,2,4,16}, yields at the hook sites. The harness is built with -race; the oracle is the per-program delta of runtime.RaceErrors (report read from the GORACE log and attributed to the repository by the owner of each conflicting access), plus 'every phase returns' (program, an epilogue that uses every socket, manager and the namespace again, teardown), decided by two goroutine dumps 10 s apart that show the same goroutines parked in repository frames. Quick 240 programs, thorough 12 000; thorough also runs the other properties' rigs under the race detector and attributes any race in repository code to C16 (c16-rig-race). Sampling of schedules: a pass means no race / hang in the programs run, nothing more.",
+            "rapid-generated programs on a real server and 1..3 real clients: 2..16 goroutines x 5..40 operations over ServerSocket (22 kinds), ClientSocket (20, incl. bursts of connect/disconnect cycles and SetAuth), Namespace/Server/Adapter (16), Manager (10, incl. calls from OnceOpen/OnceClose handlers), session recovery with a cleaner every 2 ms, a third of them performed inside event handlers or ack callbacks of the addressed side, more from connection/disconnecting/disconnect/connect handlers, GOMAXPROCS in {1,2,4,16}, yields at the hook sites. The harness is built with -race; the oracle is the per-program delta of runtime.RaceErrors (report read from the GORACE log and attributed to the repository by the owner of each conflicting access), plus 'every phase returns' (program, an epilogue that uses every socket, manager and the namespace again, teardown), decided by two goroutine dumps 10 s apart that show the same goroutines parked in repository frames. Quick 240 programs, thorough 12 000; thorough also runs the other properties' rigs under the race detector and attributes any race in repository code to C16 (c16-rig-race). c16-send-during-upgrade (c07-upgrade run under this property): Sends from several goroutines, forced at yield points, while the library swaps transports; a call that never returns is a deadlock. Sampling of schedules: a pass means no race / hang in the programs run, nothing more.",
             "The instrumented-mutex build (tag sio_deadlock) is not used as an oracle: a potential lock-order inversion is not a deadlock, and reporting it would raise false alarms; hangs are decided by the watchdog only.",
             "DESIGN.md §3 C16"),
     "C01": ("exploration",
             "property-based testing (rapid) on a virtual-time rig (real server + real Manager over an in-memory network), exactly-once/intact oracle over token-carrying events; link-fault injection; concurrent use of the manager",
-            "Three checks. c01-delivery: transport {polling, websocket, upgrade with emits falling into it}, recovery off/on, MaxBufferSize {64 KiB, 256 KiB, default}, 1..3 clients, 1..24 events of 25 schemas (16 Go argument shapes with Binary leaves, look-alike names, sizes around 32 KiB / 64 KiB) both ways from 1..4 goroutines per side; oracle: per (receiver, event) the multiset of tokens equals what was emitted, arguments tree-equal, no error, no close. c01-lossy-link: a two-way stream with every open TCP connection cut after d more bytes in one direction (reset or drained); oracle: events may be lost only together with a connection whose end is reported. c01-busy-manager: a binary stream while the client keeps using the same Manager (further namespaces, Open again, handlers, Connect/Disconnect of side namespaces); oracle: exactly once, intact, connection stays up. Held on everything generated; sampling, not exhaustive.",
+            "Three checks. c01-delivery: transport {polling, websocket, upgrade with emits falling into it}, recovery off/on, MaxBufferSize {64 KiB, 256 KiB, default}, a compression middleware in front of long-polling in a quarter of the cases, 1..3 clients, 1..24 events of 27 schemas (18 Go argument shapes with Binary leaves, one of them a struct without any Binary-typed field, look-alike names, sizes around 32 KiB / 64 KiB) both ways from 1..4 goroutines per side; oracle: per (receiver, event) the multiset of tokens equals what was emitted, arguments tree-equal, no error, no close. c01-lossy-link: a two-way stream with every open TCP connection cut after d more bytes in one direction (reset or drained); oracle: events may be lost only together with a connection whose end is reported. c01-busy-manager: a binary stream while the client keeps using the same Manager (further namespaces, Open again, handlers, Connect/Disconnect of side namespaces); oracle: exactly once, intact, connection stays up. Held on everything generated; sampling, not exhaustive.",
             "Virtual time: interleavings are those the bubble's scheduler produces plus forced yields at hook sites; real TCP stacks are not in the loop. Open finding KF-C01-2 (net/http repeats a poll whose answer was lost before its first byte), tolerated while its probe still fails, and counted.",
             "DESIGN.md §3 C01"),
     "C02": ("exploration",
             "property-based testing (rapid): wire-level check with an independent streaming decoder on a raw Engine.IO endpoint + handler-entry order on the rig",
-            "1..16 emitting goroutines x bursts of 1..50 events x 0..4 attachments, both directions, {polling, websocket, after an upgrade}, optional yield between queue append and sender signal; the receiving end is a raw Engine.IO endpoint whose message packets feed the reference streaming decoder. Oracle: frames of a packet contiguous, attachments in place, per-emitter sequence numbers in order, nothing lost; plus connection histories (two CONNECTs at once, a rejected one first), 8..200 ack-carrying events from the recording peer meanwhile (ACK packets share the wire), and client emitters that stream right through the flush of the offline buffer. Handler-entry order is checked on the sio<->sio rig; it is the open finding KF-C02-1 (a goroutine per packet), whose probe is re-evaluated on every run.",
+            "1..16 emitting goroutines x bursts of 1..50 events x 0..4 attachments, both directions, {polling, websocket, after an upgrade}, optional yield between queue append and sender signal; the receiving end is a raw Engine.IO endpoint whose message packets feed the reference streaming decoder. Oracle: frames of a packet contiguous, attachments in place, per-emitter sequence numbers in order, nothing lost; plus connection histories (two CONNECTs at once, a rejected one first), 8..200 ack-carrying events from the recording peer meanwhile (ACK packets share the wire), and client emitters that stream right through the flush of the offline buffer. c02-order-across-upgrade (the check c07-paused-poll run under this property): per-sender order while the backlog of the polling transport moves to the WebSocket, with a sender released at the yield point before the swap. Handler-entry order is checked on the sio<->sio rig; it is the open finding KF-C02-1 (a goroutine per packet), whose probe is re-evaluated on every run.",
             "Order is decided at Engine.IO message level (what the transport hands up), not on raw TCP bytes.",
             "DESIGN.md §3 C02"),
     "C03": ("exploration",
             "property-based testing (rapid) on the rig + a hand-written raw protocol peer that sends duplicate / late / unknown acks",
             "rapid over ack'd emits in both directions with reply delays around the timeout, callbacks taking replies by value or by pointer, plain and volatile offline emits, cuts before the reply; events with acks emitted from the server's connection handler while the client still processes the CONNECT reply (c03-at-connect); and a raw peer (Engine.IO by the repo's transport, Socket.IO "
-            "by hand) that answers with duplicate, late, unknown-id and wrong-namespace ACK packets. Oracle: every callback runs at most once; with a timeout exactly once (reply or ErrAckTimeout, never both, "
+            "by hand) that answers with duplicate, late, unknown-id and wrong-namespace ACK packets; c03-ack-chains: ack callbacks that emit follow-up requests with acks (depth 1..3) and ack functions kept across a reconnection and called while new requests are outstanding (every reply is the token of its request). Oracle: every callback runs at most once; with a timeout exactly once (reply or ErrAckTimeout, never both, "
             "within timeout + slack of virtual time); the reply values are the ones the handler passed (tree-equal); a case that never returns is a violation (stall -> real-clock confirmation).",
             "Timing bounds are in virtual time. Any one of several duplicate ACKs is admissible as 'the' reply.",
             "DESIGN.md §3 C03"),
     "C04": ("exploration",
             "small-scope exhaustive enumeration + model-based stateful property testing (rapid) of both adapters against the selection rule",
-            "EXHAUSTIVE: every membership matrix of 3 sockets x 3 rooms (512) x every target subset x every except subset on the in-memory and the session-aware adapter, a second sweep with own-id rooms in T and E; rapid histories over <= 6 sockets, <= 5 rooms: connect/join/leave/disconnect, SocketsJoin/Leave/DisconnectSockets, adapter and through-socket broadcasts (sender exclusion), operator algebra with a reused base operator, FetchSockets; after every step Sockets(R) and SocketRooms(s) equal the model. Oracle: recipients as a multiset == union(T) minus union(E) minus sender. Open finding KF-C04-1.",
+            "EXHAUSTIVE: every membership matrix of 3 sockets x 3 rooms (512) x every target subset x every except subset on the in-memory and the session-aware adapter, a second sweep with own-id rooms in T and E; rapid histories over <= 6 sockets, <= 5 rooms: connect/join/leave/disconnect, SocketsJoin/Leave/DisconnectSockets, adapter and through-socket broadcasts (sender exclusion), operator algebra with a reused base operator, FetchSockets; c04-concurrent places membership changes, or a second multi-room broadcast, inside an operation at the adapter's lock-release yield point; after every step Sockets(R) and SocketRooms(s) equal the model. Oracle: recipients as a multiset == union(T) minus union(E) minus sender. Open finding KF-C04-1.",
             "Adapter level with recording socket stores; membership changes concurrent with a broadcast and the path through the wire are not decided by this check (see DESIGN.md).",
             "DESIGN.md §3 C04"),
     "C05": ("exploration",
             "property-based testing (rapid) on the rig + raw protocol peer addressing namespaces it did not join",
             "rapid over 2..4 namespaces on one connection with per-namespace emits, acks, rooms of the same name, middleware rejections and disconnects of a single namespace; raw peer sending events, acks "
             "and disconnects for namespaces it has not joined / was refused. Oracle: every event, ack and room broadcast is seen only in the namespace it was sent in; a namespace disconnect or rejection "
-            "leaves the others connected and working; traffic for a non-joined namespace never reaches a handler; a namespace that was left can be joined again on the same connection; a broadcast issued while a slow middleware still decides does not reach the unadmitted connection; two simultaneous CONNECT packets admit one socket; volatile emits on an unattached socket put nothing on the shared connection.",
+            "leaves the others connected and working; traffic for a non-joined namespace never reaches a handler; a namespace that was left can be joined again on the same connection; a broadcast issued while a slow middleware still decides does not reach the unadmitted connection; two simultaneous CONNECT packets admit one socket; volatile emits on an unattached socket put nothing on the shared connection; the other spelling of a namespace name addresses the same socket; leaving and re-joining at once works.",
             "Virtual-time rig; namespaces are static (no dynamic namespace regexp).",
             "DESIGN.md §3 C05"),
     "C06": ("fault_enumeration",
             "fault enumeration (stream cut at every n-th byte offset of every connection, either direction) + rapid lifecycle histories, invariant over end-of-connection reports and server state",
-            "A scripted session (1-2 namespaces, binary echo events, optional upgrade) is run uncut to learn the byte length of every connection in each direction, then re-run with the stream cut at every stride-th byte offset of every connection in either direction (stride 1 in thorough for the first KiB). rapid adds cause {client Disconnect, Manager.Close, server Disconnect, DisconnectSockets, Server.Close, cut, black-hole} x phase {connecting, in middleware, idle, in a burst, during the upgrade} x transport x 1-2 namespaces x optional second cause. Verdict 25 virtual seconds later: each server socket is alive and answers, or ended with exactly one disconnect report with an admissible reason and is in no list / room / adapter state; the old Engine.IO sid answers 'unknown'; clients report once. Twelve defects found this way are repaired.",
+            "A scripted session (1-2 namespaces, binary echo events, optional upgrade) is run uncut to learn the byte length of every connection in each direction, then re-run with the stream cut at every stride-th byte offset of every connection in either direction (stride 1 in thorough for the first KiB). rapid adds cause {client Disconnect, Manager.Close, server Disconnect, DisconnectSockets, Server.Close, cut, black-hole} x phase {connecting, in middleware, idle, in a burst, during the upgrade} x transport x 1-2 namespaces x optional second cause. Verdict 25 virtual seconds later: each server socket is alive and answers, or ended with exactly one disconnect report with an admissible reason and is in no list / room / adapter state; the old Engine.IO sid answers 'unknown'; clients report once. c06-engine-close-race (c17-close run under this property): sessions admitted while Engine.IO Server.Close is busy. Fourteen defects found this way are repaired.",
             "Faults are those memnet injects (cut, black-hole, refuse) on the scripted session; complete for the enumerated offsets of that session only.",
             "DESIGN.md §3 C06"),
     "C07": ("exploration",
             "property-based testing (rapid) at Engine.IO level in virtual time with forced yields inside the upgrade and injected link faults",
-            "0..30 numbered text/binary messages both ways at instants spread over the upgrade (microsecond resolution), WebSocket latency 0..20 ms, bursts fired from the yield hooks right before the transport swap on either side and from UpgradeDone; disturbed upgrades: WebSocket link cut at a drawn byte offset 0..400 or black-holed; then traffic after 15 s and 3 heartbeat periods. Oracle: multiset received == sent on both sides, no close, a completed upgrade ends on websocket on both sides, a disturbed one leaves both sides agreeing on the transport with traffic flowing. c07-paused-poll: a hand-written client that pauses polling during the upgrade (as the reference client does) while 1..3 server goroutines keep sending; the backlog of the polling transport, the heartbeat PING included, must come out of the WebSocket exactly once and per sender in order, and the session must stay open.",
+            "0..30 numbered text/binary messages both ways at instants spread over the upgrade (microsecond resolution), WebSocket latency 0..20 ms, bursts fired from the yield hooks right before the transport swap on either side and from UpgradeDone; disturbed upgrades: WebSocket link cut at a drawn byte offset 0..400 or black-holed; then traffic after 15 s and 3 heartbeat periods. Oracle: multiset received == sent on both sides, no close, a completed upgrade ends on websocket on both sides, a disturbed one leaves both sides agreeing on the transport with traffic flowing. c07-paused-poll: a hand-written client that pauses polling during the upgrade (as the reference client does) while 1..3 server goroutines keep sending; the backlog of the polling transport, the heartbeat PING included, must come out of the WebSocket exactly once and per sender in order, and the session must stay open. Forced schedules at three yield points: server Send held at the polling transport's entry, client Send held under its read lock, the server's swap 2.5 s late; the UpgradeDone callback itself uses the socket.",
             "Disturbed upgrades carry no traffic inside the window (virtual-time artifact otherwise); a cut after the completed upgrade is outside the property. Socket.IO-level upgrade traffic is covered by C01's upgrade class.",
             "DESIGN.md §3 C07"),
     "C08": ("exploration",
             "model-based property testing (rapid) of the session-aware adapter against a reference log; end-to-end recovery against a hand-written client that implements the recovery protocol",
             "Adapter level: rapid histories in virtual time (window 2 s / 10 s, cleaner off / W/4 / W / 3W): joins, leaves, namespace / room(+except) / direct broadcasts (text, binary), disconnects, time advancing across the window, RestoreSession with own/unknown pid and last/older/unknown/empty offset; oracle: recovered => same sid, rooms, missed packets == reference log after the offset filtered by the session's rooms, re-encode to what was emitted; expired/unknown => not recovered. End to end: the real server (window 10 s / 2 min, cleaner 1 s / 2.5 s / 1 min, UseMiddlewares on/off) against a raw peer that tracks offsets and reconnects with {pid, offset}: loss by cut / black hole / forced close / DISCONNECT, broadcasts before the server can notice, staying away around the window, a second recovery; oracle: recovered iff eligible, replay == log, rooms restored, else fresh session with nothing replayed. Open finding KF-C08-1.",
-            "c08-go-client runs the library's own client through outages against the recovery-enabled server (four handler signatures): recovered iff eligible, exactly before + missed + after, each once.",
+            "c08-go-client runs the library's own client through outages against the recovery-enabled server (four handler signatures), optionally losing the recovered session again before anything newer arrived: recovered iff eligible, exactly before + missed + after, each once.",
             "DESIGN.md §3 C08"),
     "C12": ("exploration",
             "property-based testing (rapid) of middleware chains on the virtual-time rig against a reference fold",
-            "Chains of 0..5 namespace middlewares (accept / reject with error, string or struct, optionally slow) on / and a custom namespace with 1..4 clients connecting concurrently and a broadcast issued while sockets are in the chain; chains of 0..3 per-socket event middlewares over five event signatures with 1..3 handlers per event, with and without the client asking for an ack the handler does not take, with connection state recovery (a recovered session passes the chain only if UseMiddlewares is set). Oracle: invocation indices 0..j in order, inside a middleware the socket is unlisted, in no room and not connected; all accept => one connect, listed, reachable; reject => connect_error carrying exactly that rejection, no handler, nothing listed; event middlewares see the emitted name and arguments before the handler; rejected => handler never runs.",
+            "Chains of 0..5 namespace middlewares (accept / reject with error, string, struct or a value that is the zero value of its type, optionally slow) on / and a custom namespace with 1..4 clients connecting concurrently and a broadcast issued while sockets are in the chain; chains of 0..3 per-socket event middlewares over five event signatures with 1..3 handlers per event, with and without the client asking for an ack the handler does not take, with connection state recovery (a recovered session passes the chain only if UseMiddlewares is set), and bursts of 4..24 events through middlewares that decide by the arguments. Oracle: invocation indices 0..j in order, inside a middleware the socket is unlisted, in no room and not connected; all accept => one connect, listed, reachable; reject => connect_error carrying exactly that rejection, no handler, nothing listed; event middlewares see the emitted name and arguments before the handler; rejected => handler never runs.",
             "Virtual-time rig; five event signatures.",
             "DESIGN.md §3 C12"),
     "C14": ("exploration",
@@ -102,7 +102,7 @@ CLAIMED = {
             "server over memnet in a synctest bubble: the server is taken away (links cut, dials refused) and given back after a drawn time (or never, or twice), with ReconnectionAttempts 0..5, three delays, "
             "four max factors, three jitters, and 0..10 emits (plain / volatile / ack-with-timeout / Volatile and Timeout chained in either order) before, during and after the outage and while the CONNECT is pending; oracle on the manager's reconnect_* "
             "events with virtual timestamps (attempt numbers, every gap in (0, max], first gap in the jitter band, exactly N attempts then reconnect_failed once, then silence; reconnect when reachable) and "
-            "on delivery (offline plain emits exactly once and in order after the reconnect, volatile never, timed-out ack emits purged with ErrAckTimeout once); optionally one lifecycle dispatch held back (forced schedule). (c) c15-stream-order: producers that emit right through a reconnection against an endpoint that records arrival order (nothing overtakes the offline backlog). (d) c15-close-stops: Manager.Close() at a drawn microsecond of an outage stops the reconnection for good; Connect()/Open() later brings the socket up, delivers what was emitted meanwhile once, and reconnection works again. (e) c15-retry-queue: a socket with Retries 1..3 (emits go through clientPacketQueue) against a server that acknowledges at once, emits before Connect, while a CONNECT is pending, online and offline: every queued event exactly once and in order, its ack function once, volatile offline never.",
+            "on delivery (offline plain emits exactly once and in order after the reconnect, volatile never, timed-out ack emits purged with ErrAckTimeout once); optionally one lifecycle dispatch held back (forced schedule). (c) c15-stream-order: producers that emit right through a reconnection against an endpoint that records arrival order (nothing overtakes the offline backlog). (d) c15-close-stops: Manager.Close() at a drawn microsecond of an outage stops the reconnection for good; Connect()/Open() later brings the socket up, delivers what was emitted meanwhile once, and reconnection works again. (e) c15-retry-queue: a socket with Retries 1..3 (emits go through clientPacketQueue) against a server that acknowledges at once, emits before Connect, while a CONNECT is pending, online and offline: every queued event exactly once and in order, its ack function once, volatile offline never. (f) c15-restart-while-down, on the REAL clock: Close inside a running reconnection round, Connect/Open again at once with the server still down, ReconnectionAttempts 1..3: attempts numbered exactly 1..N, reconnect_failed once (counts only).",
             "Jitter comes from the library's use of math/rand's global source, so replays of cases with jitter > 0 are not bit-reproducible. Order of the offline flush is read from long-polling bodies only.",
             "DESIGN.md §3 C15"),
     "C17": ("exploration",
@@ -116,13 +116,13 @@ CLAIMED = {
             "model-based stateful property testing (rapid) against a reference registry + concurrent bursts",
             "rapid state machine over seven registries through the public API with real occurrences in a virtual-time rig (server/client socket events, Namespace events incl. names reserved for sockets only, Namespace/Server connection handlers, client "
             "connect/disconnect, Manager close), 8 distinct functions per signature, set of admissible models for duplicate registrations; occurrences singly and in simultaneous bursts; a "
-            "dedicated Once-vs-burst load test (each Once handler exactly once per burst, registrations made while a burst is dispatched); and c18-off-concurrent: an Off call naming handlers at the same time as On / Once / Off / an occurrence on the same registry (commuting pairs, so the sequential model is the oracle), the registry pre-filled with 300..20000 registrations so that the calls overlap.",
+            "dedicated Once-vs-burst load test (each Once handler exactly once per burst, registrations made while a burst is dispatched); and c18-off-concurrent: an Off call naming handlers at the same time as On / Once / Off / an occurrence on the same registry (commuting pairs, so the sequential model is the oracle), the registry pre-filled with 300..20000 registrations so that the calls overlap; c18-off-inside-handler: Off without a handler / OffAll / Off-then-On called from inside a handler while the occurrence is being delivered. Half of the handlers are method values evaluated afresh at every use.",
             "Handlers are distinct top-level functions (Go identifies funcs by code pointer; closures of one literal are outside the sampled domain). Lifecycle cases whose connection attempt fails "
             "spontaneously are aborted and counted (the registry oracle needs a known number of occurrences).",
             "DESIGN.md §3 C18"),
     "C19": ("exploration",
             "forced-schedule property testing in virtual time (yield hook) + exhaustive placement enumeration at queue level; generated poll-request histories at HTTP level; end-to-end latency oracle on the zero-latency virtual-time rig",
-            "Queue level: the real pollQueue/packetQueue in a synctest bubble; a yield hook parks the consumer between its emptiness check and its wait while 'window' producers run; EXHAUSTIVE over placements (<= 3 producers x {before, window, after} x 1-2 consumers x finale incl. close/reset/shutdown) and rapid over sizes/timings; oracle: every packet handed over reaches a consumer within the stated virtual bound, exactly once, FIFO; no empty poll while queued; consumers terminate. End to end: real server and client (polling, websocket, upgrade; link latency 0/1/20 ms), 1..12 emit instants with gaps 0..31 s around the 25 s heartbeat, bursts from concurrent goroutines; oracle: handler entry within 6 link traversals + 20 ms of virtual time after Emit. During the upgrade the server emits from the yield point before the transport swap while the first Send that reaches the polling transport is held at its entry (forced schedule). HTTP level (c19-poll-requests): one long-polling session driven through ServeHTTP, 1..4 poll requests on a 100 us grid, a third abandoned by their client (request context cancelled), sends on the same grid, issued before or after the arrivals / abandonments of the same instant; oracle: while a packet is queued no poll request waits on the server for more than 50 us, every packet answered exactly once.",
+            "Queue level: the real pollQueue/packetQueue in a synctest bubble; a yield hook parks the consumer between its emptiness check and its wait while 'window' producers run; EXHAUSTIVE over placements (<= 3 producers x {before, window, after} x 1-2 consumers x finale incl. close/reset/shutdown) and rapid over sizes/timings; oracle: every packet handed over reaches a consumer within the stated virtual bound, exactly once, FIFO; no empty poll while queued; consumers terminate. End to end: real server and client (polling, websocket, upgrade; link latency 0/1/20 ms), 1..12 emit instants with gaps 0..31 s around the 25 s heartbeat, bursts from concurrent goroutines; oracle: handler entry within 6 link traversals + 20 ms of virtual time after Emit. During the upgrade the server emits from the yield point before the transport swap while the first Send that reaches the polling transport is held at its entry (forced schedule). HTTP level (c19-poll-requests): one long-polling session driven through ServeHTTP, 1..4 poll requests on a 100 us grid, a third abandoned by their client (request context cancelled), sends on the same grid, issued before or after the arrivals / abandonments of the same instant; oracle: while a packet is queued no poll request waits on the server for more than 50 us, every packet answered exactly once. c19-backlog-across-upgrade (c07-paused-poll run under this property): the backlog of the polling transport, the heartbeat PING included, is transmitted after the swap.",
             "Schedules are forced only at the hook sites; elsewhere they are those the bubble's scheduler produces.",
             "DESIGN.md §3 C19"),
 }
